@@ -68,9 +68,7 @@ class ECOS(Solver):
         # create cone dims dict for ECOS
         cones = {'l': int(np.sum(type_selectors['+'])),
                  'e': int(np.sum(type_selectors['e']) / 3),
-                 'q': util.contiguous_selector_lengths(type_selectors['S'])}
-                # ^ The block above probably has a bug. What happens when
-                # two SOC constraints appear back-to-back?
+                 'q': [co.len for co in K if co.type == 'S']}
         data = {'G': G, 'h': h, 'cones': cones, 'A': A_ecos, 'b': b_ecos, 'c': c}
         inv_data = dict()
         return data, inv_data
